@@ -10,7 +10,7 @@ HEADER_IMPORTS = ('From Coq Require Import List ZArith. Import ListNotations.\n'
                   'From LV Require Import Core.Syntax Core.Eval Core.Check.\n')
 
 
-def run_impl(text, prog, preds=None, max_rows=120):
+def run_impl(text, prog, preds=None, max_rows=120, rename=None):
   """{pred: ('ok', header, rows) | (class, message)} for the table predicates of prog."""
   out = {}
   try:
@@ -24,7 +24,8 @@ def run_impl(text, prog, preds=None, max_rows=120):
     if perr:
       out[d['name']] = perr
       continue
-    st, a, b = logica_run.run_pred(text, d['name'], decode=False, rules=rules, time_limit=15.0)
+    st, a, b = logica_run.run_pred(text, (rename or {}).get(d['name'], d['name']), decode=False, rules=rules,
+                                   time_limit=15.0)
     if st == 'Timeout':
       out[d['name']] = ('big', a)
       continue
@@ -53,8 +54,8 @@ except Exception:
 
 
 def _impl_worker(args):
-  text, prog, preds = args
-  return run_impl(text, prog, preds)
+  text, prog, preds = args[:3]
+  return run_impl(text, prog, preds, rename=args[3] if len(args) > 3 else None)
 
 
 _POOL = None
@@ -73,7 +74,7 @@ def run_impl_many(jobs, procs=8, per_job_timeout=150):
   (counted by the caller, never treated as a result)."""
   global _POOL
   if len(jobs) < 4:
-    return [run_impl(*j) for j in jobs]
+    return [_impl_worker(j) for j in jobs]
   from concurrent.futures import TimeoutError as FTimeout
   from concurrent.futures.process import BrokenProcessPool
   if _POOL is None:
